@@ -325,7 +325,8 @@ def probe(fam, values):
 def run_model(prop, lines_with_obs):
     """lines 'fam value | obs' -> list of (model_obs, chk_model, chk_impl)"""
     p = subprocess.run([DRIVER, "chk", prop], input="\n".join(lines_with_obs) + "\n",
-                       stdout=subprocess.PIPE, stderr=subprocess.PIPE, text=True, timeout=3600)
+                       stdout=subprocess.PIPE, stderr=subprocess.PIPE, text=True,
+                       timeout=int(os.environ.get("VERIF_MODEL_TIMEOUT", "1500")))
     if p.returncode != 0:
         raise RuntimeError("driver failed: " + p.stderr[-2000:])
     res = []
@@ -378,7 +379,7 @@ def run_both(prop, cases):
 # ----------------------------------------------------------------------------- step 5: shrink
 
 # top-level positions that hold oracle tables (tabulated answers of Qt): never shrunk
-PROTECT = {"sock": {2}, "srv": {2}, "srvm": {2}, "fs": {0, 1, 4}, "bauth": {3}, "bauthm": {2}, "slot": {2}, "proxy": {5}}
+PROTECT = {"sock": {2}, "srv": {2}, "srvm": {2}, "fs": {0, 1, 4}, "fsm": {0, 1, 3}, "bauth": {3}, "bauthm": {2}, "slot": {2}, "proxy": {5}}
 
 
 def candidates(v, protect=frozenset()):
